@@ -75,6 +75,10 @@ CHECKS = {
             "Hundreds (thorough: thousands) of topologies of 1..8 caller coroutines x 1..12 requests against one target serving exactly the total, three generator shapes, with and without StartWithVal, PRNG yields at the coroutine hook points: every request reaches exactly one YieldRef, the caller of the request taken as step k receives exactly y_k, per-caller order, counts; StartWithVal, DoNotation, YieldFromIO, IsStarted/IsDone; non-termination through the stuck detector; repeated under -race.",
             "Trusted: unique x/y encodings; logs are read only after a join the effects themselves signal; schedules sampled.",
             "DESIGN.md section 5, C14"),
+    "C13": ("exploration", "self-verifying replies (pure function of payload + nonce) under shuffled reply order; logical timeout classes with harness-signalled late replies; hook-parked asker; Go race detector",
+            "Dozens (thorough: hundreds) of correlation workloads with 1..32 askers x 1..200 asks over AskOnce / AskOnceWithTimeout / AskChannel and three reply disciplines, plus the four timeout classes (in time, never, after the timeout has been reported, racing it with the asker parked between timer and close) x payload kinds, each followed by a liveness probe of the actor; late replies run under recover with a blocked-detector; repeated under -race.",
+            "Trusted: the 60 s 'generous' timeouts are only used in the safe direction; schedules sampled + one park point.",
+            "DESIGN.md section 5, C13"),
 }
 
 NOT_YET = "check not built yet in this session (runtime monitoring applies; see DESIGN.md section 5)"
